@@ -18,7 +18,7 @@ FLAVOURS = ["plain_str", "str_ids", "str_hook", "obj_cb", "obj_derived", "obj_de
 KEY_MAPS = {"default": True, "off": False,
             "custom": {"data_id": "i", "str": "s", "kind": "k", "type": "t", "name": "n", "age": "a"}}
 VALUE_MAPS = {"default": True, "off": False,
-              "custom": {"type": ["person", "dept"], "role": ["dept", "unused", "person"], "title": [f"d{i}" for i in range(64)],
+              "custom": {"type": ["person", "dept"], "role": ["dept", "unused", "person", "dept"], "title": [f"d{i}" for i in range(64)],
                          "age": list(range(60, 10, -1))}}  # age: int values; role: the values of "type" at other positions
 COMPRESSIONS = {"off": False, "true": True, "stored": zipfile.ZIP_STORED, "deflated": zipfile.ZIP_DEFLATED,
                 "bzip2": zipfile.ZIP_BZIP2, "lzma": zipfile.ZIP_LZMA}
@@ -177,10 +177,12 @@ def build_source(flavour, f, rng):
     # the data (and id) of another one by set_data()
     late = flavour not in ("str_ids", "typed_str_ids", "typed_obj_default") and rng.random() < 0.2
     gen.FORCE_UNIQUE[0] = late
+    gen.CREATION[0] = "bfs" if rng.random() < 0.35 else "pre"  # a third of the sources are created level by level
     try:
         t, save_kw, load_cls, load_kw = _build_source(flavour, f, rng)
     finally:
         gen.FORCE_UNIQUE[0] = False
+        gen.CREATION[0] = "pre"
     if late and t.count >= 3 and t.count == t.count_unique:
         nodes = list(t)
         for _ in range(3):
